@@ -53,6 +53,10 @@ claim("C11", "static analysis: who-may-write and dominance rules on the retained
       "Decides: EventAppend stores to the retained list exactly once, appending its argument, only on the OneTime != \"true\" edge and outside any loop; only ListenerRemove/EventRemove otherwise write the list; SendAllPackagesToNewClient ranges the retained list in index order sending each element to the new client, then the sessions skipping inactive ones; SendEvent performs exactly one WriteMessage per call with the client's mutex in the must-held set, preceded by SetWriteDeadline on the same connection, and every mutex is released on every exit; the EventBroadcast send is control-dependent on ExceptClient != key and on the client's Authenticated flag. Not decided: completeness under concurrent broadcasters (the retained list has no lock), delivery order across goroutines.",
       TRUST, "DESIGN.md §3 R13/R3, §4 C11")
 
+claim("C12", "static analysis: SSA classification of the three admission checks in (*HTTP).request with polarity, reject-edge reachability and a cut-set bypass check; split-idiom rule; def-use of the recorded peer address; route registration rule",
+      "Decides: the User-Agent, URI and request-header checks each have a failing outcome that reaches fake404+return and cannot reach parseAgentRequest, with the right polarity and initial flag value; without a check's accepting edge and the configuration-only skip edges (conditions over the same Config field only) the parser is unreachable; no teamserver/agent call precedes the parser; every `Name: value` string whose piece [1] is used is cut with SplitN(…, 2); the address handed to the parser is X-Forwarded-For only under BehindRedir and otherwise net.SplitHostPort(RemoteAddr); Start routes POST to request and registers the decoy as catch-all. Not decided: gin's routing/query handling, header canonicalisation in net/http, that ListenerEdit's stores are seen by concurrent requests.",
+      TRUST, "DESIGN.md §3 R11, §4 C12")
+
 for i in range(1, 21):
     pid = "C%02d" % i
     if pid not in CLAIMS and pid not in NA:
